@@ -930,6 +930,48 @@ def c01q(ctx):
         ctx.fail(o, "(program)", "expected >= 2 pop sites in StrippedBuffer::drain_all / drain_limited, found %d" % n)
 
 
+def c01r(ctx):
+    prog = ctx.prog
+    # ---- a Hit that hands a value to an executing caller records what the caller saw
+    o = ctx.ob("C01.r", "fast_path/hit-records-the-observation", "K2+K4",
+               "fast_path records the callee's fingerprints in the caller (observe_callee + caller_observe_tfc_callees) before every Hit it returns to a caller that requires the value")
+    b = ctx.touch(prog.coroutine_of("Snapshot::fast_path"))
+    obs = b.calls_to(r"Snapshot<C, Q>>::observe_callee_fingerprint$|Snapshot::<C, Q>::observe_callee_fingerprint$")
+    hits = b.aggregates(r"fast_path::FastPathResult$", "Hit")
+    o.sites = len(obs) + len(hits)
+    if len(obs) != 1 or not hits:
+        ctx.fail(o, Site(b, 0, 0), "anchor missing: observe_callee_fingerprint / FastPathResult::Hit in fast_path (%d / %d)" % (len(obs), len(hits)))
+    else:
+        g = df.guarded_by(b, obs[0].bb, lambda c: c.kind == "call" and c.callee.endswith("QueryCaller::require_value"))
+        if not any(((v != 0) != c.negated) for sb, v, tb, c in g if v != "otherwise") and not any((not c.negated) for sb, v, tb, c in g if v == "otherwise"):
+            ctx.fail(o, obs[0], "the observation is not recorded exactly for callers that require the value")
+        # removing the observation, no Hit is reachable on the require_value() == true side
+        for sb, v, tb, c in g:
+            pol = ((v != 0) != c.negated) if v != "otherwise" else (not c.negated)
+            if pol:
+                r = b.reachable([tb], removed_nodes=[obs[0].bb])
+                if any(h.bb in r for h in hits) and not b.edge_dominates((sb, tb), obs[0].bb):
+                    ctx.fail(o, obs[0], "a Hit can be returned to a caller that requires the value without its observation having been recorded")
+    oc = ctx.touch(prog.body("Snapshot::observe_callee_fingerprint"))
+    need = [r"QueryComputing::observe_callee$", r"QueryComputing::caller_observe_tfc_callees$"]
+    for pat in need:
+        ss = oc.calls_to(pat)
+        o.sites += len(ss)
+        if len(ss) != 1 or oc.must_pass([0], [ss[0].bb]):
+            ctx.fail(o, Site(oc, 0, 0), "observe_callee_fingerprint does not call %s on every path" % pat.rstrip("$"))
+    # ---- un-registering a callee removes exactly that callee from the recorded order
+    o = ctx.ob("C01.r", "CalleeOrder::abort_callee/removes-exactly-the-callee", "K5",
+               "CalleeOrder::abort_callee selects the entry to remove by equality with the callee it was given")
+    bodies = [x for x in prog.bodies.values() if x.name.startswith("CalleeOrder::abort_callee")]
+    cmps = [(x, s_) for x in bodies for s_ in x.calls_to(r"core::cmp::PartialEq::(eq|ne)$")]
+    o.sites = len(cmps)
+    if len(cmps) < 2:
+        ctx.fail(o, "(program)", "expected >= 2 id comparisons in CalleeOrder::abort_callee (Single and Unordered arms), found %d" % len(cmps))
+    for x, s_ in cmps:
+        if s_.node["fn"]["path"].endswith("::ne"):
+            ctx.fail(o, s_, "CalleeOrder::abort_callee selects an entry that is NOT the aborted callee: a cancelled call removes another dependency from the recorded order")
+
+
 def _variant_name(prog, adt, v):
     try:
         return prog.adts[adt]["variants"][int(v)]["name"]
@@ -947,6 +989,7 @@ def run(ctx):
     ctx.run_clause("C01.o", c01o)
     ctx.run_clause("C01.p", c01p)
     ctx.run_clause("C01.q", c01q)
+    ctx.run_clause("C01.r", c01r)
     ctx.run_clause("C01.j", c01j)
     ctx.run_clause("C01.i", c01i)
     for c, f in (("C01.a", c01a), ("C01.b", c01b), ("C01.c", c01c), ("C01.c", c01c_roles), ("C01.d", c01d), ("C01.e", c01e), ("C01.f", c01f), ("C01.g", c01g)):
